@@ -59,7 +59,8 @@ def gen_plan(prop, run_seed, tier):
     n_calls = s.randint(6, 14 if tier == "quick" else 30)
     calls = [dict(view=s.choice(VIEWS), fn=s.choice(FUNCS), sub=s.randrange(2**31)) for _ in range(n_calls)]
     return dict(engine="predsim", prop=prop, screen=spec, model=model, n=w.randint(2, 5), D=w.randint(1, 4),
-                seed=w.randrange(2**31), scale=w.choice([0.3, 1.0, 4.0, 30.0]), steps=calls)
+                seed=w.randrange(2**31), scale=w.choice([0.3, 1.0, 4.0, 30.0]), steps=calls,
+                generations=w.choice([1, 2, 2, 3]))
 
 
 def execute(prop, plan):
@@ -73,7 +74,18 @@ def execute(prop, plan):
             viol.append(Violation(prop, oid, sig, msg))
 
     np.seterr(all="ignore")
-    _run(plan, log, stats, violation)
+    import gc
+
+    # generations: a long-running driver creates posterior samples, predicts with them and drops them again;
+    # the next generation (same shapes, other values) must not be affected by anything the previous one left behind
+    for g in range(plan.get("generations", 1)):
+        sub = dict(plan, seed=plan["seed"] + 7919 * g)
+        if g:
+            stats.probe("later_generation_of_samples")
+        _run(sub, log, stats, violation)
+        gc.collect()
+        if viol:
+            break
     return dict(digest=log.digest(), violations=viol, stats=stats.to_dict(), log_head=log.head)
 
 
